@@ -40,6 +40,8 @@ def run(ck):
     ck.rule("C01.R13", "the no_std registry re-evaluates what the std one does (interests and max level from the same calls; as C04.R7)", floor=4)
     ck.rule("C01.R6", "every new collector is registered (register_dispatch)", floor=6)
     ck.rule("C01.R7", "who may write MAX_LEVEL / callsite interest", floor=4)
+    ck.rule("C01.R16", "first hit of a callsite: only the winner of the registration CAS registers; a loser answers `sometimes`, never a definitive cached value (as C04.R4)", floor=4)
+    ck.rule("C01.R17", "`the emitting thread's current collector` is resolved as C02 says: get_default's fast path iff no scope exists anywhere, else the thread's scoped default or the published global one (as C02.R2/R3/R4)", floor=10)
     ck.rule("C01.R8", "STATIC_MAX_LEVEL table under each max_level feature, each release_max_level feature and pairs of both, with and without debug assertions", floor=30)
     ck.rule("C01.R11", "collector wrappers forward the interest / enabled / hint questions to the wrapped collector (as C09.R1/R2)", floor=20)
     ck.rule("C01.R10", "interest rebuilds, collector registration and first-hit registration are serialised by the registry lock (as C04.R1)", floor=3)
@@ -69,6 +71,12 @@ def run(ck):
     r5(ck, F)
     r6(ck, F)
     r7(ck, F)
+    from rules import C04 as _C04
+    _C04.r4(ck, F, rid="C01.R16")
+    from rules import C02 as _C02
+    _C02.r2(ck, F, rid="C01.R17")
+    _C02.r3(ck, F, rid="C01.R17")
+    _C02.r4(ck, F, rid="C01.R17")
     fx = "fx" if ck.tier == "quick" else "fx:%d:300" % ck.seed
     FX = Facts(fx)
     ck.configs.append(fx)
@@ -548,7 +556,7 @@ def r6(ck, F):
 
 
 # ------------------------------------------------------------------ R7
-def r7(ck, F):
+def r7(ck, F, rid="C01.R7"):
     ML = "tracing_core::metadata::MAX_LEVEL"
     writers = set()
     for b in F.body_list:
@@ -562,15 +570,15 @@ def r7(ck, F):
             if o[0] == "const" and o[1].get("static") == ML and c.get("method") not in ("load",):
                 writers.add(b.path)
     if writers == {"tracing_core::metadata::LevelFilter::set_max"}:
-        ck.ok("C01.R7", "MAX_LEVEL written only by LevelFilter::set_max")
+        ck.ok(rid, "MAX_LEVEL written only by LevelFilter::set_max")
     else:
-        ck.bad("C01.R7", "MAX_LEVEL written only by LevelFilter::set_max", str(sorted(writers)), "writers: %s" % sorted(writers))
+        ck.bad(rid, "MAX_LEVEL written only by LevelFilter::set_max", str(sorted(writers)), "writers: %s" % sorted(writers))
     callers = {b.path for b, bb, t in F.callers().get("tracing_core::metadata::LevelFilter::set_max", [])}
     allowed = {CS + "rebuild_interest", CS + "register_dispatch"}
     if callers and callers <= allowed:
-        ck.ok("C01.R7", "set_max called only from the registry rebuild", detail=sorted(callers))
+        ck.ok(rid, "set_max called only from the registry rebuild", detail=sorted(callers))
     else:
-        ck.bad("C01.R7", "set_max called only from the registry rebuild", str(sorted(callers)), "set_max callers: %s" % sorted(callers))
+        ck.bad(rid, "set_max called only from the registry rebuild", str(sorted(callers)), "set_max callers: %s" % sorted(callers))
     # set_interest callers (trait method): only rebuild_callsite_interest
     si = set()
     for b in F.body_list:
@@ -581,9 +589,9 @@ def r7(ck, F):
             if c.get("trait") == "tracing_core::callsite::Callsite" and c.get("method") == "set_interest":
                 si.add(b.path)
     if si == {CS + "rebuild_callsite_interest"}:
-        ck.ok("C01.R7", "Callsite::set_interest called only from rebuild_callsite_interest")
+        ck.ok(rid, "Callsite::set_interest called only from rebuild_callsite_interest")
     else:
-        ck.bad("C01.R7", "Callsite::set_interest called only from rebuild_callsite_interest", str(sorted(si)), "callers: %s" % sorted(si))
+        ck.bad(rid, "Callsite::set_interest called only from rebuild_callsite_interest", str(sorted(si)), "callers: %s" % sorted(si))
     # MacroCallsite.interest stores
     stores = set()
     for b, bb, kind, d in field_users(F, MS, "interest", crate="tracing"):
@@ -591,9 +599,9 @@ def r7(ck, F):
             stores.add((b.path, kind))
     want = {("<%s as tracing_core::callsite::Callsite>::set_interest" % MS, "call:store")}
     if stores == want:
-        ck.ok("C01.R7", "MacroCallsite.interest stored only in set_interest")
+        ck.ok(rid, "MacroCallsite.interest stored only in set_interest")
     else:
-        ck.bad("C01.R7", "MacroCallsite.interest stored only in set_interest", str(sorted(stores)), "writers of the cached byte: %s" % sorted(stores))
+        ck.bad(rid, "MacroCallsite.interest stored only in set_interest", str(sorted(stores)), "writers of the cached byte: %s" % sorted(stores))
 
 
 # ------------------------------------------------------------------ R8
